@@ -22,12 +22,12 @@ def ballot(draw, cands, p_missing=0.15, max_marks=None, write_in=False):
         # a mark for somebody who is not a candidate of the contest and nothing else: no vote for any candidate
         return {"WRITE_IN": draw(st.sampled_from([True, 1, "x"]))}
     if shape == "one":
-        return {draw(st.sampled_from(cands)): draw(st.sampled_from([True, 1, 2, "x"]))}
+        return {draw(st.sampled_from(cands)): draw(st.sampled_from([True, 1, 2, "x", "0"]))}   # ('0' is a non-empty string: a mark)
     if shape == "falsy":
         return {c: draw(st.sampled_from([False, 0, "", None])) for c in draw(st.lists(st.sampled_from(cands), max_size=3, unique=True))}
     if shape == "over":
         cs = draw(st.lists(st.sampled_from(cands), min_size=min(2, len(cands)), max_size=len(cands), unique=True))
-        return {c: draw(st.sampled_from([True, 1, 2, "x"])) for c in cs}
+        return {c: draw(st.sampled_from([True, 1, 2, "x", "0"])) for c in cs}
     cs = draw(st.lists(st.sampled_from(cands), max_size=len(cands), unique=True))
     return {c: draw(st.sampled_from(MARKS)) for c in cs}
 
